@@ -32,3 +32,13 @@ Definition obs (s : state) : list (list (list Z)) :=
 
 Definition obs_trace (ops : list op) : list (res * list (list (list Z))) :=
   map (fun rs => (fst rs, obs (snd rs))) (trace init ops).
+
+(** Order-independent fingerprint of the observable projection: the correspondence compares fingerprints after
+    every op and evaluates the full projection only for histories whose fingerprints differ. *)
+Definition HM : Z := 2305843009213693951.
+Definition hrow (tbl : Z) (r : list Z) : Z := fold_left (fun acc x => (acc * 1000003 + (x + 7)) mod HM) r (tbl + 1).
+Definition htable (tbl : Z) (rows : list (list Z)) : Z := fold_left (fun acc r => (acc + hrow tbl r) mod HM) rows 0.
+Fixpoint hobs_from (i : Z) (tables : list (list (list Z))) : Z :=
+  match tables with [] => 0 | t :: r => (htable i t + hobs_from (i + 1) r) mod HM end.
+Definition hobs (s : state) : Z := hobs_from 1 (obs s).
+Definition hash_trace (ops : list op) : list (res * Z) := map (fun rs => (fst rs, hobs (snd rs))) (trace init ops).
